@@ -22,13 +22,16 @@ CLIENTS = [
     {"id": "nouri", "secret": "", "uris": [], "response_types": ms.ALL_RESPONSE_TYPES, "method": "none"},
     {"id": "tokonly", "secret": "", "uris": ["https://tok/cb"], "response_types": ["token"], "method": "none"},
     {"id": "codeonly", "secret": "s", "uris": ["https://code/cb"], "response_types": ["code"], "method": "client_secret_post"},
+    # a native app (RFC 8252) with port-less loopback redirect URIs registered
+    {"id": "native", "secret": "", "uris": ["http://127.0.0.1/cb", "http://[::1]/cb"], "response_types": ms.ALL_RESPONSE_TYPES, "method": "none"},
 ]
 RTS = ["code", "token", "id_token", "id_token token", "token id_token", "code id_token", "id_token code", "code token", "code id_token token", "token code id_token",
        "bogus", "", None, "code code", "code\tid_token"]
-CIDS = ["c1", "p1", "nouri", "tokonly", "codeonly", "unknown", "", None]
+CIDS = ["c1", "p1", "nouri", "tokonly", "codeonly", "native", "native", "unknown", "", None]
 URIS = [None, "", "https://good/cb", "https://good/cb2?keep=1&x=a+b", "https://good/cb3?legacy=&native&tenant=acme", "https://good/cb3?tenant=acme", "https://good/cb4?tenant=a&tenant=b&t=1", "https://good/cb4?tenant=b&t=1", "https://pub/cb", "https://pub/other", "https://tok/cb", "https://code/cb",
         "https://evil/cb", "https://good/cbx", "https://good/cb/", "https://good/c", "https://good/cb?x=1", "https://good/CB", "good/cb", "https://good/cb#frag",
-        "javascript:alert(1)", "https://good/cb2", "https://evil/cb?keep=1&x=a+b", "//good/cb"]
+        "javascript:alert(1)", "https://good/cb2", "https://evil/cb?keep=1&x=a+b", "//good/cb",
+        "http://127.0.0.1/cb", "http://[::1]/cb", "http://127.0.0.1:51004/cb", "http://user@127.0.0.1:7/cb", "http://[::1]:8080/cb", "http://127.0.0.1:80/cb", "http://localhost/cb"]
 SCOPES = [None, "", "openid", "openid profile", "profile", "profile openid", "zzz", "openid zzz"]
 STATES = [None, "", "xyz", "a b&c=d#e", " lead", "trail ", "\tboth\n", " "]
 NONCES = [None, "", "n1", "used"]
